@@ -86,6 +86,8 @@ pub mod proofs {
         let _ = b.push(x); let _ = b.pop(); let _ = b.get(1); let _ = b.slices();
         let mut n = 0; for _ in b.iter() { n += 1; } assert!(n <= 3);
         let _ = b.drain().next();
+        b.extend([x, x].iter().cloned().filter(|v| *v != 7));        // Extend, iterator with an inexact size_hint
+        f.extend([x].iter().cloned());
         let _ = f.push(x); let _ = f.get(5); f.set_first(2); let _ = f.slices();
         let mut n = 0; for _ in f.iter() { n += 1; } assert!(n == 3);
     } }
